@@ -19,6 +19,13 @@ type cliPkg struct {
 	Kind    string `json:"kind"`    // ok, fail-missing, fail-unused, fail-cycle, fail-multi, fail-sig, noinj, noinj-badset
 	Variant int    `json:"variant"` // changes the generated content (and its length)
 	Tagged  bool   `json:"tagged"`  // has an extra injector file guarded by the build tag "extra"
+	// LineDir: defs.go starts with a //line directive naming a file in another
+	// directory (as generated parsers do).
+	LineDir bool `json:"linedir,omitempty"`
+	// Shared: a generating package has one more injector, built from the
+	// provider set of the module's package "shared" (whose content has
+	// variants of its own).
+	Shared bool `json:"shared,omitempty"`
 }
 
 // sources returns the files of the package (without any wire_gen.go).
@@ -38,6 +45,9 @@ func (p cliPkg) sources() map[string]string {
 	}
 	fmt.Fprintf(&d, "func NewTop(%s) *Top { return &Top{Parts: []int{%s}} }\n", strings.Join(ps, ", "), strings.Join(as, ", "))
 	f["defs.go"] = d.String()
+	if p.LineDir {
+		f["defs.go"] = "//line ../linedir/gram.y:1\n" + d.String()
+	}
 	var provs []string
 	for i := 0; i < n; i++ {
 		provs = append(provs, fmt.Sprintf("NewT%d", i))
@@ -78,6 +88,10 @@ func (p cliPkg) sources() map[string]string {
 		f["side.go"] = fmt.Sprintf("package %s\n\nimport _ \"%s/blank\"\n", p.Name, ModPath)
 	case "noinj-badset":
 		f["sets.go"] = fmt.Sprintf("package %s\n\nimport \"github.com/google/wire\"\n\nvar Dup = wire.NewSet(NewT0, NewT0)\n", p.Name)
+	}
+	if p.Shared && p.Kind == "ok" {
+		f["useshared.go"] = fmt.Sprintf("package %s\n\nimport \"%s/shared\"\n\ntype US struct{ N int }\n\nfunc NewUS(t *shared.Thing) *US { return &US{N: t.N} }\n", p.Name, ModPath)
+		f["wire_shared.go"] = fmt.Sprintf("//go:build wireinject\n\npackage %s\n\nimport (\n\t\"github.com/google/wire\"\n\n\t\"%s/shared\"\n)\n\nfunc InitUS() *US {\n\twire.Build(shared.Set, NewUS)\n\treturn nil\n}\n", p.Name, ModPath)
 	}
 	if p.Tagged && (p.Kind == "ok") {
 		f["wire_extra.go"] = fmt.Sprintf("//go:build wireinject && extra\n\npackage %s\n\nimport \"github.com/google/wire\"\n\nfunc InitExtra() *T0 {\n\twire.Build(NewT0)\n\treturn nil\n}\n", p.Name)
@@ -121,14 +135,25 @@ func (o cliOpts) flags(cmd string, root string) []string {
 }
 
 type cliWorld struct {
-	c     *Ctx
-	dir   string
-	pkgs  []cliPkg
-	fresh map[string]string // pkgname|variant|kind|tagged|optskey -> expected content
+	c   *Ctx
+	dir string
+	// sharedVar is the current variant of the package "shared".
+	sharedVar int
+	pkgs      []cliPkg
+	fresh     map[string]string // pkgname|variant|kind|tagged|optskey -> expected content
 }
 
-func newCLIWorld(c *Ctx, pkgs []cliPkg) (*cliWorld, error) {
-	w := &cliWorld{c: c, dir: c.NewWorkDir("cli"), pkgs: pkgs, fresh: map[string]string{}}
+// sharedSource is the package "shared" in variant v.
+func sharedSource(v int) string {
+	return fmt.Sprintf("package shared\n\nimport \"github.com/google/wire\"\n\ntype Thing struct{ N int }\n\nfunc NewThingA() *Thing { return &Thing{N: 1} }\n\nfunc NewThingB() *Thing { return &Thing{N: 2} }\n\nfunc NewThingC() *Thing { return &Thing{N: 3} }\n\nvar Set = wire.NewSet(NewThing%c)\n", 'A'+rune(((v%3)+3)%3))
+}
+
+func (w *cliWorld) writeShared(dir string) error {
+	return WriteTree(dir, map[string]string{"shared/shared.go": sharedSource(w.sharedVar)})
+}
+
+func newCLIWorld(c *Ctx, pkgs []cliPkg, sharedVar int) (*cliWorld, error) {
+	w := &cliWorld{c: c, dir: c.NewWorkDir("cli"), pkgs: pkgs, fresh: map[string]string{}, sharedVar: sharedVar}
 	if err := w.writeSkeleton(w.dir); err != nil {
 		return nil, err
 	}
@@ -148,13 +173,15 @@ func (w *cliWorld) writeSkeleton(dir string) error {
 		return err
 	}
 	return WriteTree(dir, map[string]string{
-		"go.mod":          "module " + ModPath + "\n\ngo 1.21\n\nrequire github.com/google/wire v0.0.0\n\nreplace github.com/google/wire => ./wiremod\n",
-		"wiremod/go.mod":  "module github.com/google/wire\n\ngo 1.21\n",
-		"wiremod/wire.go": string(marker),
-		"header.txt":      "// Copyright header line 1\n// line 2\n\n",
-		"badheader.txt":   "Copyright (c) Example Corp. This line is not a Go comment.\n\n",
-		"blank/blank.go":  "package blank\n",
-		"README.txt":      "not a go file\n",
+		"go.mod":           "module " + ModPath + "\n\ngo 1.21\n\nrequire github.com/google/wire v0.0.0\n\nreplace github.com/google/wire => ./wiremod\n",
+		"wiremod/go.mod":   "module github.com/google/wire\n\ngo 1.21\n",
+		"wiremod/wire.go":  string(marker),
+		"header.txt":       "// Copyright header line 1\n// line 2\n\n",
+		"badheader.txt":    "Copyright (c) Example Corp. This line is not a Go comment.\n\n",
+		"blank/blank.go":   "package blank\n",
+		"README.txt":       "not a go file\n",
+		"linedir/gram.y":   "% not Go: the file a //line directive points to\n",
+		"shared/shared.go": sharedSource(w.sharedVar),
 	})
 }
 
@@ -192,7 +219,10 @@ func (w *cliWorld) freshContent(p cliPkg, o cliOpts) (string, error) {
 	if !p.generates() || o.Header == "unreadable" || o.Header == "invalid" {
 		return "", nil
 	}
-	key := fmt.Sprintf("%s|%d|%s|%v|%s", p.Name, p.Variant, p.Kind, p.Tagged, cliOpts{Header: o.Header, Tags: o.Tags}.key())
+	key := fmt.Sprintf("%s|%d|%s|%v|%s|%v", p.Name, p.Variant, p.Kind, p.Tagged, cliOpts{Header: o.Header, Tags: o.Tags}.key(), p.LineDir)
+	if p.Shared {
+		key += fmt.Sprintf("|shared%d", ((w.sharedVar%3)+3)%3)
+	}
 	if v, ok := w.fresh[key]; ok {
 		return v, nil
 	}
